@@ -329,6 +329,18 @@ fn check_typed_views(ctx: &mut Ctx, f: &ElfBytes<'_, AnyEndian>, data: &[u8], wh
                         return false;
                     }
                 }
+                // round 9: "exactly the entries decodable from the raw bytes" also against a decoder that is not the
+                // crate's own (both paths above share Note::parse_at): the reference note walker of C14
+                if view == 3 && !compressed {
+                    if let (Ok(b), Ok(it)) = (&raw, f.section_data_as_notes(&sh)) {
+                        ctx.count("typed:notes:reference-decode");
+                        let before = ctx.violations.len();
+                        super::c14::check_iteration(ctx, "typed:notes:slice:reference-decode", matches!(e, AnyEndian::Big), sh.sh_addralign, b, it);
+                        if ctx.violations.len() != before {
+                            return false;
+                        }
+                    }
+                }
                 if !compressed {
                     if let Some(sr) = &styped {
                         match (sr, &via_raw) {
@@ -370,6 +382,14 @@ fn check_typed_views(ctx: &mut Ctx, f: &ElfBytes<'_, AnyEndian>, data: &[u8], wh
             if !same(&typed) || styped.as_ref().map(|s| !same(s)).unwrap_or(false) {
                 ctx.violation("typed:segment-notes:differs-from-raw", format!("{what}: segment {j}: segment_data_as_notes differs from decoding segment_data's bytes"));
                 return false;
+            }
+            if let (Ok(b), Ok(it)) = (f.segment_data(&ph), f.segment_data_as_notes(&ph)) {
+                ctx.count("typed:segment-notes:reference-decode");
+                let before = ctx.violations.len();
+                super::c14::check_iteration(ctx, "typed:segment-notes:slice:reference-decode", matches!(e, AnyEndian::Big), ph.p_align, b, it);
+                if ctx.violations.len() != before {
+                    return false;
+                }
             }
         }
     }
